@@ -17,6 +17,10 @@ Lemma env_and_values_covered :
   rows_eqb model_value_builders source_value_builders = true.
 Proof. split; vm_compute; reflexivity. Qed.
 
+(* the functions that read the contact's URNs during a run are the ones the model's header accounts for *)
+Lemma urn_readers_covered : pairs_eqb model_urn_readers source_urn_readers = true.
+Proof. vm_compute. reflexivity. Qed.
+
 (* the tree the model builds has, at every transcribed builder, exactly the keys of the model's table
    ("__default__" first, then alphabetical as XObject.Properties() lists them) *)
 Definition dflt_first (ks : list string) : list string :=
